@@ -104,3 +104,22 @@ Theorem C01_run_let : forall O h i e r, pure e = true -> r_slen r + lenN (postfi
   end.
 Proof. exact run_let. Qed.
 Print Assumptions C01_run_let.
+
+(* ---- control flow, part 1 (Proofs/Flow.v): what compilation produces for programs made of LET, GOTO, ON..GOTO and END ---- *)
+From BL Require Import Proofs.Flow.
+
+(* each statement of the fragment compiles to its piece: code with placeholder jumps plus references to target lines *)
+Theorem C01_statement_pieces : forall s p, fstmt s p -> lenN (pc_ops p) <= MAX_POOL ->
+  exists c, cg_stmt s = ((c, raw (pc_cur p) (pc_ops p) (pc_refs p)), []).
+Proof. exact fstmt_cg. Qed.
+Print Assumptions C01_statement_pieces.
+
+(* a whole program of such lines compiles, without errors, to the layout: line symbols at the start addresses, the pieces
+   one behind the other, every reference recorded at its absolute address *)
+Theorem C01_compile_is_layout : forall lines plines dp,
+  Forall2 (fun l pl => fst l = fst pl /\ Forall2 fstmt (snd l) (snd pl)) lines plines ->
+  lenN (l_ops (layout plines dp)) <= MAX_POOL ->
+  pg_link (compile_asts lines dp) = layout plines dp /\ pg_errors (compile_asts lines dp) = []
+  /\ pg_direct (compile_asts lines dp) = 0 /\ pg_ind_errors (compile_asts lines dp) = [].
+Proof. exact compile_is_layout. Qed.
+Print Assumptions C01_compile_is_layout.
